@@ -23,13 +23,13 @@ def model_check(tier, wd, out):
     for d, maxops in ((2, 2),) if tier == "quick" else ((2, 3), (1, 4)):
         with open(cfg, "w") as f:
             f.write(f"SPECIFICATION Spec\nCONSTANTS\n  D = {d}\n  Vals = {{1, 2}}\n  MaxOps = {maxops}\n  MaxBatch = 2\n  Variant = \"none\"\n"
-                    "INVARIANTS Durable Reported Dur CrashDur FlushBarrier\nCHECK_DEADLOCK FALSE\n")
+                    "INVARIANTS Durable Reported Dur CrashDur FlushBarrier LiveEqualsLoaded\nCHECK_DEADLOCK FALSE\n")
         res = tlc_mc("Storage", cfg, f"mc-storage-{out.prop}", workers=8, timeout=3000)
         require_mc_ok(res, f"Storage.tla D={d} MaxOps={maxops}",
                       must_take=["StartDelete", "StartAppend", "StartRange", "Step", "Crash"])
         out.add(states=res["distinct"], transitions=res["generated"])
         out.notes.append(f"TLC Storage.tla D={d} MaxOps={maxops} (every fault position and every crash point of every history): {res['distinct']} "
-                         f"distinct states, {res['generated']} transitions; Durable, Reported, Dur, CrashDur, FlushBarrier hold")
+                         f"distinct states, {res['generated']} transitions; Durable, Reported, Dur, CrashDur, FlushBarrier, LiveEqualsLoaded hold")
     # vacuity control: the lazy flush (seeded C16-m4) must be refuted by the crash-point invariants
     with open(cfg, "w") as f:
         f.write("SPECIFICATION Spec\nCONSTANTS\n  D = 1\n  Vals = {1, 2}\n  MaxOps = 4\n  MaxBatch = 2\n  Variant = \"lazy-flush\"\n"
@@ -38,6 +38,17 @@ def model_check(tier, wd, out):
     if not res.get("violated"):
         raise ToolError("Storage.tla: the lazy-flush variant was not refuted (vacuous crash-point invariants)")
     out.notes.append("Storage.tla: the faulty variant 'lazy-flush' (flush skipped after batch-only writes) is refuted by TLC")
+    # the two known findings of the external tree crate, as a named deviation of the design: the property's second sentence
+    # (reports, acknowledged updates, crash points) still holds, "what the instance reports is what a reopen finds" does not
+    for invs, expect_violation in (("Reported Dur CrashDur", False), ("LiveEqualsLoaded", True)):
+        with open(cfg, "w") as f:
+            f.write("SPECIFICATION Spec\nCONSTANTS\n  D = 1\n  Vals = {1, 2}\n  MaxOps = 2\n  MaxBatch = 2\n  Variant = \"memory-first\"\n"
+                    f"INVARIANTS {invs}\nCHECK_DEADLOCK FALSE\n")
+        res = tlc_mc("Storage", cfg, f"mc-storage-{out.prop}-kf", workers=2, timeout=900, coverage=False)
+        if expect_violation != bool(res.get("violated")) or (not expect_violation and not res.get("finished")):
+            raise ToolError(f"Storage.tla variant 'memory-first': invariants {invs} - expected violation={expect_violation}:\n" + res["out"][-1500:])
+    out.notes.append("Storage.tla: the variant 'memory-first' (in-memory count raised before the writes, root replaced after them: the known "
+                     "findings pm-next-memory-ahead / pm-batch-root-memory-behind) keeps Reported, Dur, CrashDur and violates LiveEqualsLoaded")
 
 
 def meta_value(rnd):
